@@ -23,6 +23,11 @@ class SuccessionDiagramState(TypedDict):
     The network rules as an `.aeon` formatted string.
     """
 
+    network_variables: list[str]
+    """
+    The network variables in their original order (the `.aeon` format sorts variables by name).
+    """
+
     petri_net: nx.DiGraph
     """
     The Petri net representation of the network rules (see :mod:`biobalm.petri_net_translation`).
